@@ -5,6 +5,26 @@ COMMON_NOTE = ("Trusted base: Lean 4.33 kernel; axioms ⊆ {propext, Classical.c
                "generated tables (harness/gen_tables.py). ")
 
 CLAIMED = {
+    "C09": {
+        "text": "Theorems (Lean, over EVERY history of any length of {commit = append / delete / both with optional expiry, expire, delete "
+                "snapshot, failed commit with or without cleanup, collection with ANY candidate set}, by induction with an invariant): "
+                "snapshot_content_stable — every retained snapshot reads back exactly the data-file list recorded at its commit; "
+                "committed_frozen — that record is never changed later; time_travel_stable — a snapshot retained at two points of a history "
+                "reads the same at both; commit_spec — a commit records the base snapshot's files minus exactly the deleted ones plus exactly "
+                "the new ones; gc_keeps_retained — a collection leaves every retained snapshot's content unchanged; md_wf + lookup_by_id_content, "
+                "lookup_by_timestamp_hist (non-decreasing clock, equal timestamps allowed: most recently committed retained snapshot not newer "
+                "than t), delete_current_repoints_hist (most recently committed survivor) on every reachable state; inplace_rewrite_breaks, "
+                "curonly_gc_breaks — kernel-checked witnesses that the two mutations the property's rationale names (in-place manifest rewrite, "
+                "collection protecting only the current snapshot) violate it. Tie: real-table histories replayed step by step on hist.run: "
+                "retained snapshots, current pointer, manifest structure of every retained snapshot (carried by reference / rewritten / "
+                "dropped), unreferenced-file counts. Oracle: after every step every retained snapshot re-read by the independent reader "
+                "(bytes → rows) and through the library's file manager vs the record made at its commit; timestamp lookups at every retained "
+                "timestamp ±1; current pointer after deleting the current snapshot.",
+        "design_ref": "§6 C09",
+        "note": "Rows are not modelled separately from data files (write-once; the oracle re-reads the bytes). One actor at a time; "
+                "snapshot ids fresh. Local backend.",
+        "technique": "Lean 4 invariant proofs over unbounded histories (metadata algebra × write-once file plane) + step-by-step history correspondence and re-read oracle",
+    },
     "C11": {
         "text": "Theorems (Lean): schema_arg_sound — an accepted schema argument IS the table's schema, field by field, ids and order "
                 "included (sig_injective); append_keeps_scans — after ANY history of appends, accepted or rejected, with arbitrary schema "
